@@ -12,7 +12,7 @@ import (
 )
 
 func init() {
-	register("C11", "Structural clauses that make a filtered view transfer as a self-contained tree: the sender's filesystem is only ever the hard-link-resetting wrapper; filterFS.Open consults, before delegating, every matcher filterFS.Walk consults, with the parent-aware query, and a hidden path yields an error wrapping os.ErrNotExist; the link-reset filter uses one map per walk, records every regular entry, and reports rewritten entries with the rewritten stat; the receiver's validators are wired (shared with C03); the walk prunes a directory only by literal prefix under the prefix-only flag of the right polarity, computed from the patterns of that polarity (shared with C10). The match state an entry inherits is read from the last element of the walk's open-directories stack. The set of characters that makes a pattern a wildcard pattern is complete (shared with C10). Does not decide that the stream is valid for every filter configuration nor walk/open agreement as a semantic statement.", runC11)
+	register("C11", "Structural clauses that make a filtered view transfer as a self-contained tree: the sender's filesystem is only ever the hard-link-resetting wrapper; filterFS.Open consults, before delegating, every matcher filterFS.Walk consults, with the parent-aware query, and a hidden path yields an error wrapping os.ErrNotExist; the link-reset filter uses one map per walk, records every regular entry, and reports rewritten entries with the rewritten stat; the receiver's validators are wired (shared with C03); the walk prunes a directory only by literal prefix under the prefix-only flag of the right polarity, computed from the patterns of that polarity (shared with C10). The match state an entry inherits is read from the last element of the walk's open-directories stack. The set of characters that makes a pattern a wildcard pattern is complete (shared with C10). The scan that keeps a hidden directory open looks only at the patterns that can bring entries back (shared with C10). The file ids both ends key their tables by are the zero-based positions in the STAT sequence (counter from 0, one increment per announced entry, registration with the pre-increment value; shared with C06/C07): two ends that agree with each other on any other numbering hand a conforming peer a neighbouring file's bytes. Does not decide that the stream is valid for every filter configuration nor walk/open agreement as a semantic statement.", runC11)
 }
 
 func runC11(c *Ctx) {
@@ -37,6 +37,12 @@ func runC11(c *Ctx) {
 	// text-level pruning only for patterns without any metacharacter: the
 	// set of metacharacters is complete (shared with C10)
 	r10_11(c, "R11.9")
+	// the scan that keeps a hidden directory open looks at the patterns that
+	// can bring entries back (shared with C10)
+	r10_13(c, "R11.10")
+	// a promoted link member is requested like any regular file: ids are
+	// zero-based STAT positions on both ends (shared with C06/C07)
+	idNumbering(c, "R11.11", "R11.12", "R11.13")
 }
 
 // R11.8: the match state an entry inherits is that of its nearest ancestor.
